@@ -59,6 +59,10 @@ def parse_records(text):
             cur["res"] = ("panic", line[3:])
         elif line.startswith("\x1eT"):
             cur["res"] = ("timeout", "")
+        elif line.startswith("\x1eC"):
+            # optional hook output: uniqueness answers per calling file
+            cur["uniq"] = dict((m.group(1).split("src/")[-1], (int(m.group(2)), int(m.group(3))))
+                               for m in re.finditer(r"(\S+)=(\d+)/(\d+)", line[3:]))
         else:
             cur["out"].append(line)
     for r in recs:
@@ -215,7 +219,7 @@ CLASSES = {"K03a": in_class_k03a}
 # ------------------------------------------------------------------------------------------------
 def run(ctx):
     stats = {"programs": 0, "runs": 0, "prints": 0, "corpus_cases": 0, "known_hits": {}, "ops": {}, "vias": {}, "layouts": {},
-             "threads": 0, "kont": 0, "model": {}, "samples": [], "pending": [], "oracle_mismatch": 0, "distinct": set()}
+             "threads": 0, "kont": 0, "model": {}, "real_uniqueness_answers": {}, "samples": [], "pending": [], "oracle_mismatch": 0, "distinct": set()}
     known = {k.get("id"): k for k in ctx.load_known()}
     # findings of this check that the coordinator has not listed yet are treated as listed (see the report)
     for fid in CLASSES:
@@ -317,6 +321,7 @@ def run(ctx):
         "operations": stats["ops"], "call_forms": stats["vias"], "layouts": stats["layouts"],
         "programs_with_threads": stats["threads"], "programs_with_continuation_reentry": stats["kont"],
         "model_paths": stats["model"],
+        "real_uniqueness_answers_per_calling_file(unique,shared; needs the proposed hook, includes the prelude)": stats["real_uniqueness_answers"],
         "python_oracle_vs_lean_S_mismatches": stats["oracle_mismatch"],
         "in_place_primitives": prim_cov,
         "translator": {k: v for k, v in (extracted or {}).items() if k != "prims"},
@@ -382,6 +387,10 @@ def check_batch(ctx, progs, stats, known, label):
         res = run_real(srcs, env={"STEEL_JIT": jit})
         for i, (p, d, r) in enumerate(zip(progs, drv, res)):
             stats["runs"] += 1
+            for site, (u, sh) in (r.get("uniq") or {}).items():
+                acc = stats["real_uniqueness_answers"].setdefault(site, [0, 0])
+                acc[0] += u
+                acc[1] += sh
             exp = d["out"] if not d["err"] else p["expect"]
             stats["prints"] += len(exp)
             if r["res"][0] == "ok" and r["out"] == exp:
